@@ -24,8 +24,9 @@ PARTIAL = [
     "dispatcher's state machine (Model/IoState.v)",
     "`every pending send or readiness future resolves with a disconnected error` is the Sink model's part "
     "(engines sink3/sink5), not covered here; payload readers are the inbound model's part",
-    "the control service's own readiness failure ends the task without a Stop (C07_stop_once_refuted); the oracle "
-    "does not count it as a violation because the property's list of endings does not contain it",
+    "recorded findings: the control service's own readiness failure ends the task without a Stop "
+    "(C07_stop_once_refuted, signature control-readiness-error-no-stop); a later handler error overwrites an "
+    "earlier one before poll_service reads it (C07_stop_reason_first_refuted, signature handler-error-overwritten)",
     "IO_ERR is read by ShutdownIo but set by no code path of io.rs; the theorems quantify over its value",
 ]
 
@@ -68,20 +69,20 @@ class IoPart(Part):
         """facts of the property that can be read off the observation alone:
         1 nothing panics; 2 at most one Stop; 3 a finished connection task got exactly one Stop;
         4 no handler is left once the task finished; 5 the Stop reason class of an unambiguous first cause;
-        6 the task completes once Stop was handled and the service shutdown may complete"""
+        6 the task completes once Stop was handled and the service shutdown may complete;
+        7 handler failures: the reason is the error of the first failing handler"""
         if obs == "9999":
             return "0,1,0"
         fields = case.split(";")
         cfg = nums(fields[0]) + [0] * 8
         ops = [o for o in (nums(f) for f in fields[1:]) if o]
-        ctl_ready_err = any(op[:2] == [10, 1] for op in ops)
         steps = self.parse(obs)
         for i, (fin, pending, _tm, codes, _w) in enumerate(steps):
             stops = [c for c in codes if 10 <= c < 40]
             if len(stops) > 1:
                 return "0,2,%d" % i
             if fin != 0:
-                if len(stops) != 1 and not ctl_ready_err:
+                if len(stops) != 1:
                     return "0,3,%d" % i
                 if pending != 0:
                     return "0,4,%d" % i
@@ -93,6 +94,13 @@ class IoPart(Part):
                 if benign:
                     continue
                 want = None
+                if op[0] == 2:
+                    # handler failures: the application's / protocol error of the FIRST failing handler
+                    errs = [r for r in op[2::2] if r in (2, 3)]
+                    stops = [c for c in steps[i][3] if 10 <= c < 40]
+                    if errs and stops and stops[0] in (15, 20) and stops[0] != {2: 20, 3: 15}[errs[0]]:
+                        return "0,7,%d" % i
+                    break
                 if op in ([3], [6], [7]):
                     want = 30
                 elif op == [4]:
@@ -113,7 +121,9 @@ class IoPart(Part):
         stopped = any(10 <= c < 40 for c in codes)
         ctl_done = cfg[2] == 1 or any(op[0] == 5 for op in ops)
         sd_done = cfg[3] != 1 or any(op == [11] for op in ops)
-        if stopped and ctl_done and sd_done and fin == 0:
+        # (a peer that accepts no bytes keeps the graceful io shutdown waiting for ntex-io's disconnect timeout)
+        blocked = any(op[:2] == [12, 0] for op in ops)
+        if stopped and ctl_done and sd_done and fin == 0 and not blocked:
             return "0,6,%d" % (len(steps) - 1)
         return "1"
 
@@ -130,6 +140,19 @@ def replay_parts(rp):
 
 
 def known_signature(part, case, impl_obs, oracle):
+    """recorded deviations of the current tree (see known_findings.json); anything else is None"""
+    f = oracle.split(",")
+    if len(f) < 3 or f[0] != "0":
+        return None
+    ops = [o for o in (nums(x) for x in case.split(";")[1:]) if o]
+    step = int(f[2])
+    if f[1] == "3" and any(op[:2] == [10, 1] for op in ops[:step + 1]):
+        # `ready!(control.poll_ready(cx))?`: the control service's own readiness error ends the task at once
+        return "control-readiness-error-no-stop"
+    if f[1] == "7" and step < len(ops) and ops[step][0] == 2 and \
+            len([r for r in ops[step][2::2] if r in (2, 3)]) >= 2:
+        # DispatcherState.error is one cell: the LAST handler error stored before poll_service decides
+        return "handler-error-overwritten"
     return None
 
 
@@ -139,6 +162,7 @@ CLAUSES = {
     "3": "the connection task completed without exactly one Stop notification",
     "4": "a handler was still alive after the connection task completed",
     "5": "the Stop reason does not match the cause that ended the connection",
+    "7": "several handlers failed: the Stop reason is not the error of the first one",
     "6": "the Stop notification was handled and the service shutdown could complete, but the connection task "
          "did not complete",
 }
